@@ -1308,6 +1308,20 @@ class Config:  # pylint: disable=too-many-instance-attributes
                 except Exception as err:
                     raise ValidationError(self, field, err) from err
 
+                if (
+                    sensitive_mask is not None
+                    and isinstance(value, list)
+                    and isinstance(field_value, list)
+                ):
+                    # configurations held in a list are rendered by the list field, which does
+                    # not know the mask: render them again with it
+                    value = [
+                        item.to_tree(virtual=virtual, sensitive_mask=sensitive_mask)
+                        if isinstance(item, Config)
+                        else basic
+                        for item, basic in zip(field_value, value)
+                    ]
+
             tree[key] = value
 
         return tree
